@@ -171,3 +171,108 @@ pub fn client_tables() -> Vec<Option<[usize; 4]>> {
 pub fn clear_client_tables() {
 	CLIENT_TABLES.with(|t| t.borrow_mut().clear());
 }
+
+/// In-memory stand-ins for `tokio::net::{TcpListener, TcpStream}` with the method names the server uses, so
+/// that the accept loop of `Server::start` can run on connections handed in by a harness.
+pub mod net {
+	use std::cell::RefCell;
+	use std::io;
+	use std::net::SocketAddr;
+	use std::pin::Pin;
+	use std::task::{Context, Poll};
+
+	pub use ::tokio::net::ToSocketAddrs;
+	use ::tokio::io::{AsyncRead, AsyncWrite, ReadBuf};
+	use ::tokio::sync::mpsc;
+
+	/// Anything the harness wants to use as a byte stream.
+	pub trait Io: AsyncRead + AsyncWrite + Send + Unpin + 'static {}
+	impl<T: AsyncRead + AsyncWrite + Send + Unpin + 'static> Io for T {}
+
+	/// Stand-in for `tokio::net::TcpStream`.
+	pub struct TcpStream(Box<dyn Io>);
+
+	impl TcpStream {
+		/// Wrap a harness stream.
+		pub fn new(io: impl Io) -> Self {
+			Self(Box::new(io))
+		}
+
+		/// No-op.
+		pub fn set_nodelay(&self, _nodelay: bool) -> io::Result<()> {
+			Ok(())
+		}
+	}
+
+	impl AsyncRead for TcpStream {
+		fn poll_read(mut self: Pin<&mut Self>, cx: &mut Context<'_>, buf: &mut ReadBuf<'_>) -> Poll<io::Result<()>> {
+			Pin::new(&mut *self.0).poll_read(cx, buf)
+		}
+	}
+
+	impl AsyncWrite for TcpStream {
+		fn poll_write(mut self: Pin<&mut Self>, cx: &mut Context<'_>, buf: &[u8]) -> Poll<io::Result<usize>> {
+			Pin::new(&mut *self.0).poll_write(cx, buf)
+		}
+
+		fn poll_flush(mut self: Pin<&mut Self>, cx: &mut Context<'_>) -> Poll<io::Result<()>> {
+			Pin::new(&mut *self.0).poll_flush(cx)
+		}
+
+		fn poll_shutdown(mut self: Pin<&mut Self>, cx: &mut Context<'_>) -> Poll<io::Result<()>> {
+			Pin::new(&mut *self.0).poll_shutdown(cx)
+		}
+	}
+
+	type Incoming = io::Result<(TcpStream, SocketAddr)>;
+
+	thread_local! {
+		static LISTENERS: RefCell<Vec<mpsc::UnboundedSender<Incoming>>> = const { RefCell::new(Vec::new()) };
+	}
+
+	/// Stand-in for `tokio::net::TcpListener`: every `bind` registers a queue in a per-thread list.
+	#[derive(Debug)]
+	pub struct TcpListener(::tokio::sync::Mutex<mpsc::UnboundedReceiver<Incoming>>);
+
+	impl TcpListener {
+		/// Ignores the address.
+		pub async fn bind<A: ToSocketAddrs>(_addrs: A) -> io::Result<Self> {
+			let (tx, rx) = mpsc::unbounded_channel();
+			LISTENERS.with(|l| l.borrow_mut().push(tx));
+			Ok(Self(::tokio::sync::Mutex::new(rx)))
+		}
+
+		/// Not supported.
+		pub fn from_std(_l: std::net::TcpListener) -> io::Result<Self> {
+			Err(io::Error::new(io::ErrorKind::Unsupported, "no std listeners under jsonrpsee_verif"))
+		}
+
+		/// Next connection (or accept error) handed in by the harness.
+		pub async fn accept(&self) -> Incoming {
+			match self.0.lock().await.recv().await {
+				Some(r) => r,
+				None => std::future::pending().await,
+			}
+		}
+
+		/// A fixed fake address.
+		pub fn local_addr(&self) -> io::Result<SocketAddr> {
+			Ok(SocketAddr::from(([127, 0, 0, 1], 1)))
+		}
+	}
+
+	/// Hand a connection (or an accept error) to the `k`-th listener bound on this thread.
+	pub fn incoming(k: usize, c: Incoming) -> bool {
+		LISTENERS.with(|l| l.borrow().get(k).is_some_and(|tx| tx.send(c).is_ok()))
+	}
+
+	/// Number of listeners bound on this thread so far.
+	pub fn listeners() -> usize {
+		LISTENERS.with(|l| l.borrow().len())
+	}
+
+	/// Forget all listeners of this thread.
+	pub fn clear_listeners() {
+		LISTENERS.with(|l| l.borrow_mut().clear());
+	}
+}
